@@ -26,7 +26,7 @@ Spec == Init /\ [][Step]_vars
 ScopeRestores == [][(Len(stack') < Len(stack)) => ignored' = stack[Len(stack)]]_vars
 SetTakesEffect == [][(T.kind = "scope" /\ l <= Len(T.ops) /\ T.ops[l].op \in {"set", "enter"}) => ignored' = ToSet(T.ops[l].arg)]_vars
 \* ---- equality contract ----
-ExpectedEq == Eq(T.na, T.a, T.nb, T.b, ToSet(T.ign))
+ExpectedEq == EqN(T.na, T.a, T.nb, T.b, ToSet(T.ign))
 EqContract == T.kind = "eq" =>
    /\ ~T.raised                                             \* never raises, every record is hashable
    /\ T.eq_ab = ExpectedEq /\ T.eq_ba = ExpectedEq          \* equal exactly when ...; symmetric
